@@ -158,6 +158,16 @@ def h_overwrite(eng, tier, lang, sym_draws, only=None, all_draws=False):
             obs.append(Ob('message-names-replaced-type-argument',
                           msg.startswith(str(olds[i]) + ' expected but ' + str(news[i]) + ' found'),
                           dict(case, replaced=str(olds[i]), by=str(news[i]))))
+            node, parent = _node_at(r, node_path)
+            if isinstance(node, ast.New) and isinstance(node.class_type, tp.ParameterizedType):
+                w_ = World()
+                w_.top = w_.snap(p0.bt_factory.get_any_type())
+                ns_ = ast.GLOBAL_NAMESPACE + tuple(x.split(':')[1] for x in node_path.split('/')[:1] if x.startswith('FunctionDeclaration:'))
+                verdict = type_argument_rejection(r, Typer(r), node, parent, i, ns_, w_)
+                if verdict is not None:
+                    obs.append(Ob('must-be-rejected|type-argument', verdict,
+                                  dict(case, instantiation=str(node.class_type), replaced=str(olds[i]), by=str(news[i]))))
+                    eng.event('rejection-decided')
     if target is not None:
         ns, d, o, old_t, new_t = target
         w = World()
@@ -189,6 +199,64 @@ def h_overwrite(eng, tier, lang, sym_draws, only=None, all_draws=False):
     eng.notes['sample'] = case
     eng.notes['observe'] = str(t.error_injected)
     return obs
+
+
+def _node_at(p, path):
+    """(node, parent) found at an irdiff path"""
+    parts = path.split('/')
+    nodes = {('%s:%s' % (type(d).__name__, getattr(d, 'name', ''))): d for d in P.top_decls(p)}
+    cur, par = nodes.get(parts[0]), None
+    for part in parts[1:]:
+        if cur is None:
+            return None, None
+        try:
+            idx = int(part[part.index('[') + 1:part.index(']')])
+            cur, par = list(cur.children())[idx], cur
+        except (ValueError, IndexError):
+            return None, None
+    return cur, par
+
+
+def type_argument_rejection(r, typer, node, parent, i, ns, w):
+    """does a correct type checker reject  new C<.., X_i, ..>(args)  after X_i was replaced?  True / False / None
+    (undecided).  Evidence for rejection: a constructor argument whose field type is the i-th type parameter and whose
+    own type is evident and does not fit; a declared type of the initialised variable that fixes the argument.  Evidence
+    for acceptance: every such constructor argument is an untyped null and the position gives no expected type of the
+    class (receiver of a call, declared top type)."""
+    t = node.class_type
+    classes = r.context.get_classes(ast.GLOBAL_NAMESPACE, glob=True)
+    cls = classes.get(t.name)
+    if cls is None or len(cls.type_parameters) != len(t.type_args) or len(node.args) != len(cls.fields):
+        return None
+    tpar, new_arg = cls.type_parameters[i], t.type_args[i]
+    if new_arg.is_wildcard():
+        return None
+    unconstrained = True
+    for fld, a in zip(cls.fields, node.args):
+        ft = fld.get_type()
+        if not (ft.is_type_var() and ft.name == tpar.name):
+            if hasattr(ft, 'get_type_variables') and any(v.name == tpar.name for v in ft.get_type_variables(r.bt_factory)):
+                return None         # T_i nested in a field type: undecided
+            continue
+        if isinstance(a, ast.BottomConstant) and a.t is None:
+            continue
+        at = typer.expr(a, ns)
+        if at is None:
+            return None
+        if not w.sub(w.snap(at), w.snap(new_arg)):
+            return True
+        unconstrained = False
+    if not unconstrained:
+        return None
+    if isinstance(parent, ast.FunctionCall) and parent.receiver is node:
+        return False
+    if isinstance(parent, ast.VariableDeclaration) and parent.expr is node:
+        vt = parent.var_type
+        if vt is not None and w.is_top(w.snap(vt)):
+            return False
+        if isinstance(vt, tp.ParameterizedType) and vt.name == t.name and not vt.type_args[i].is_wildcard():
+            return w.snap(vt.type_args[i]) != w.snap(new_arg)
+    return None
 
 
 def _type_args_at(p, path):
